@@ -246,3 +246,16 @@ package nsx
 //vc:  assign at "mb[sb.Id] = true" curSvcId = sb.Id
 //vc:  assert[C04] at "sa.needed = true" @deviceServiceOfThatIdKept sa == ma[curSvcId] && sb.Id == curSvcId
 //vc:  assert[C04] at "changes = append(changes, change{method, url, postData})" @serviceRequestMatchesDeviceState url == "/policy/api/v1/infra/services/" + curSvcId && (method == "PATCH" || method == "PUT") && ((method == "PATCH") == ((curSvcId in ma) && ma[curSvcId] != nil))
+
+// createPolicy (closure 1 of diffPolicies): the groups of every rule of a new
+// policy are adapted (created, or the reference rewritten to the name the group
+// has on the device) before the policy is sent - for every rule, also when an
+// earlier rule used the same group: adapting rewrites the rule's own reference.
+//vc:ghost var srcAdaptedFor *nsxRule
+//vc:ghost var dstAdaptedFor *nsxRule
+//vc:func diffPolicies$1
+//vc:  assign after "ab.adaptGroup(ru.SourceGroups)" srcAdaptedFor = ru
+//vc:  assign after "ab.adaptGroup(ru.DestinationGroups)" dstAdaptedFor = ru
+//vc:  assert[C04] at "ab.adaptGroup(ru.SourceGroups)" @sourceGroupAdapted arg1 == ru.SourceGroups
+//vc:  assert[C04] at "ab.adaptGroup(ru.DestinationGroups)" @destinationGroupAdapted arg1 == ru.DestinationGroups
+//vc:  invariant[C04] 1 "for _, ru := range b.Rules" @groupsOfEveryRuleAdapted forall k int :: { b.Rules[k] } k == rangeindex && 0 <= k ==> srcAdaptedFor == b.Rules[k] && dstAdaptedFor == b.Rules[k]
